@@ -51,6 +51,8 @@ type Contract struct {
 	SamePkg    string
 	SameAs     string   // take clauses and parameter names from this contract
 	Dead       []string // return sites declared unreachable (must be proved unreachable)
+	Keeps      []string // ghost prefixes opaque callees of this function are assumed not to touch
+	ModAll     bool     // modifies everything: no frame obligation; callers havoc argument referents and all ghosts
 	Scope      string   // extern/iface contract valid only for callers in this package (relative path)
 	Unguarded  bool     // constructor: the object is not shared yet, guarded fields may be written without the lock
 }
@@ -86,7 +88,7 @@ type GuardDecl struct {
 	Fields           []string
 }
 
-var kwRe = regexp.MustCompile(`^(requires|ensures|modifies|panics|may_panic|unguarded|scope|loop|mode|extern|assumed|pure|props|noinline|uses|iface|hint|trigger|dead|same_as|instance)\b`)
+var kwRe = regexp.MustCompile(`^(requires|ensures|modifies|panics|may_panic|unguarded|scope|keeps|loop|mode|extern|assumed|pure|props|noinline|uses|iface|hint|trigger|dead|same_as|instance)\b`)
 
 // parseContractFile reads //@ lines. pkgPath is the import path the file belongs to
 // (can be overridden by a `//@ package <path>` line for extern contract files).
@@ -253,6 +255,11 @@ func parseContractFile(path, pkgPath string) (*ContractFile, error) {
 		case "uses":
 			cur.Uses = append(cur.Uses, strings.Fields(rest)...)
 			last = nil
+		case "keeps":
+			// opaque calls made by this function (function values, uncontracted callees) keep the ghosts with
+			// these prefixes - an assumption, listed in the evidence
+			cur.Keeps = append(cur.Keeps, strings.Fields(strings.Replace(rest, ",", " ", -1))...)
+			last = nil
 		case "scope":
 			// this (extern/iface) contract applies only at call sites inside the named repository package
 			cur.Scope = rest
@@ -350,6 +357,10 @@ func parseContractFile(path, pkgPath string) (*ContractFile, error) {
 			}
 			if cl.Kind == "modifies" {
 				if strings.TrimSpace(cl.Text) == "nothing" {
+					continue
+				}
+				if strings.TrimSpace(cl.Text) == "everything" {
+					c.ModAll = true
 					continue
 				}
 				for _, part := range splitTop(cl.Text, ',') {
